@@ -116,7 +116,10 @@ func (a *Atom) Deref(_ context.Context) (MalType, error) {
 }
 
 func (a *Atom) LispPrint(pr_str func(MalType, bool) string) string {
-	return "«atom " + pr_str(a.Val, true) + "»"
+	a.Mutex.RLock()
+	val := a.Val
+	a.Mutex.RUnlock()
+	return "«atom " + pr_str(val, true) + "»"
 }
 
 // Future
